@@ -9,12 +9,12 @@ META = {
     "text": "spec/Lexer.tla is the lexer's state machine over 26 character classes with the parser's InRegex feedback as an input; TLC "
             "checks Progress (every lexProg invocation consumes input or ends the lexing) for all class strings up to length 4 (thorough 5) "
             "and emits the token-kind sequence of each, which must equal what the REAL lexer emits on the concretised string; every such "
-            "string, and TLC-generated well-typed programs with one byte-level mutation (truncate at any byte, delete/duplicate/swap a token, "
+            "string, and TLC-generated well-typed programs to which the check applies one seeded byte-level mutation (truncate at any byte, delete/duplicate/swap a token, "
             "insert a class byte, unbalance a bracket/quote/slash, nest an expression up to 300 deep, a 3000-byte regex), is compiled twice by "
             "the real compiler: exactly one of object / non-empty error list, no panic, identical result, within the deadline.",
     "note": "Totality over ALL byte strings is not a model-checking question: exhaustive only for short class strings, sampled beyond; "
             "memory safety and pathological regex compile times are covered only through the inputs tried (deadline 20 s, observed worst case recorded).",
-    "technique": "TLA+ lexer automaton with TLC-exhaustive progress check; every enumerated string and TLC-generated mutants replayed into the real lexer/compiler",
+    "technique": "TLA+ lexer automaton with TLC-exhaustive progress check; every enumerated string, and seeded mutants of TLC-generated programs, replayed into the real lexer/compiler",
     "design_ref": "DESIGN.md 5/C03",
 }
 CLASSES = ["NL", "SP", "DG", "AL", "EE", "SU", "DOT", "MI", "PL", "QU", "BS", "SL", "HA", "DO", "AT", "EQ", "TI", "BA", "LT", "AM", "ST",
